@@ -205,3 +205,84 @@ Proof.
   assert (get (olinks (whole_file c0 m)) (rname m) = Some (enc m)) as -> by (unfold whole_file; cbn [olinks]; apply get_first).
   rewrite (validate_names_beyond m Hok q pk x [] Hwm Hg). cbn [app]. exact Hu.
 Qed.
+
+(* ---------- save(path, node, mode = append-over) for an inner node the file has: replaced in its parent, its branch
+   merged with replacement below it *)
+From Emd Require Import Proofs.PUnionAO.
+
+Lemma update_at_compose : forall p f w1 f1 x w2,
+  update_at f p w1 = Ok f1 ->
+  update_at f1 (p ++ [x]) w2 = update_at f p (fun g => do g1 <- w1 g; in_child x w2 g1).
+Proof.
+  induction p as [|k q IH]; intros f w1 f1 x w2 H1.
+  - cbn [update_at app] in *. rewrite H1. cbn [bind]. reflexivity.
+  - cbn [update_at app] in *. destruct f as [a l|]; [|discriminate]. destruct (get l k) as [c|] eqn:Ek; [|discriminate].
+    destruct (update_at c q w1) as [c1|] eqn:E1; cbn [bind] in H1; [|discriminate]. injection H1 as <-.
+    cbn [update_at]. rewrite get_set_same. rewrite (IH c w1 c1 x w2 E1).
+    destruct (update_at c q (fun g => do g1 <- w1 g; in_child x w2 g1)) as [c2|]; cbn [bind]; [|reflexivity].
+    f_equal. f_equal. clear. induction l as [|[k0 v0] r IHr]; cbn [set]; [rewrite String.eqb_refl; reflexivity|].
+    destruct (String.eqb k k0) eqn:E; cbn [set]; [rewrite String.eqb_refl; reflexivity|rewrite E, IHr; reflexivity].
+Qed.
+
+Lemma init_last (q : path) x : init_path (q ++ [x]) = q /\ last_name (q ++ [x]) = x.
+Proof.
+  unfold init_path, last_name. split; [apply removelast_last|apply last_last].
+Qed.
+Lemma path_eqb_refl p : path_eqb p p = true.
+Proof. induction p as [|x q IH]; [reflexivity|]. cbn. rewrite String.eqb_refl. exact IH. Qed.
+
+Lemma update_at_first_ok : forall p o (w1 w2 : obj -> res obj) c2,
+  update_at o p (fun g => do g1 <- w1 g; w2 g1) = Ok c2 -> exists c1, update_at o p w1 = Ok c1.
+Proof.
+  induction p as [|k q IH]; intros o w1 w2 c2 H.
+  - cbn [update_at] in *. destruct (w1 o) as [g1|]; [eauto|discriminate].
+  - cbn [update_at] in *. destruct o as [a l|]; [|discriminate]. destruct (get l k) as [c|]; [|discriminate].
+    destruct (update_at c q (fun g => do g1 <- w1 g; w2 g1)) as [c'|] eqn:E; cbn [bind] in H; [|discriminate].
+    destruct (IH c w1 w2 c' E) as (c1 & ->). cbn [bind]. eauto.
+Qed.
+
+Theorem inner_node_appendover c0 m root q x pk km data md :
+  In md appendovermode ->
+  rcls m = CRoot -> rname root = rname m -> rmds root = [] -> ok_tree m ->
+  rwalk m q = Some pk -> rwalk m (q ++ [x]) = Some km ->
+  rwalk root (q ++ [x]) = Some data -> rname data = x ->
+  compat_ao (RN CNode "" 0%Z 0 [] [data]) (shallow_links pk) (rkids pk) ->
+  exists f', append_existing root (q ++ [x]) (WA md (Some true) None) md (whole_file c0 m) = Ok f' /\
+             lookup f' (rname m :: q) = Some (G (node_tags pk) (shallow_links pk ++ enc_kids (aom (RN CNode "" 0%Z 0 [] [data]) (rkids pk)))) /\
+             (forall p, is_pref p (rname m :: q) = false -> is_pref (rname m :: q) p = false -> lookup f' p = lookup (whole_file c0 m) p).
+Proof.
+  intros Hmd Hc Hname Hmds Hok Hwp Hwm Hwr Hdn Hcompat.
+  assert (mem md appendovermode = true) as Hao by (destruct Hmd as [<-|[<-|[<-|[<-|[<-|[]]]]]]; reflexivity).
+  assert (lookup (whole_file c0 m) (rname m :: q) = Some (enc pk)) as Hl.
+  { unfold whole_file. cbn [lookup]. rewrite get_first. apply lookup_enc; assumption. }
+  (* the single replace-and-merge step on the parent group *)
+  pose proof (ao_union (RN CNode "" 0%Z 0 [] [data]) (node_tags pk) (shallow_links pk) (rkids pk) Hcompat) as Hstep.
+  rewrite <- (enc_eq pk) in Hstep. cbn [append_branch rkids fold_left bind] in Hstep.
+  assert (km_in : rget (rkids pk) x = Some km).
+  { clear -Hwp Hwm. revert m Hwp Hwm. induction q as [|y q' IH]; intros m Hwp Hwm.
+    - injection Hwp as <-. cbn [app rwalk] in Hwm. destruct (rget (rkids m) x); [injection Hwm as <-; reflexivity|discriminate].
+    - cbn [app rwalk] in *. destruct (rget (rkids m) y) as [kid|]; [|discriminate]. apply (IH kid Hwp Hwm). }
+  assert (mem (rname data) (map fst (filter (fun kv => is_group (snd kv) && has_gtype (snd kv)) (olinks (enc pk)))) = true) as Hmem.
+  { rewrite Hdn. apply mem_In. apply in_map_iff. exists (x, enc km). split; [reflexivity|]. apply filter_In. split; [|apply enc_has_gtype].
+    rewrite enc_links'. apply in_or_app. right. apply get_In. apply get_enc_kids_some. exact km_in. }
+  rewrite Hmem in Hstep.
+  destruct (update_at_spec (rname m :: q) (whole_file c0 m) (enc pk) (fun g0 => do g1 <- overwrite_in_parent data g0; in_child (rname data) (append_branch true data) g1) _ Hl Hstep) as (f' & Hu & Hl' & Hfr & _).
+  exists f'. split; [|split; [exact Hl'|exact Hfr]].
+  unfold append_existing. rewrite Hwr. cbn [emdpath tree]. rewrite Hao.
+  rewrite (rootgroups_whole c0 m Hc). rewrite Hname. cbn [mem]. rewrite String.eqb_refl. rewrite Hmds.
+  assert (in_child (rname m) (append_root_metadata true []) (whole_file c0 m) = Ok (whole_file c0 m)) as ->.
+  { unfold in_child, whole_file. cbn [update_at]. rewrite get_first. cbn [update_at append_root_metadata bind set]. rewrite String.eqb_refl. reflexivity. }
+  cbn [bind]. assert ((match q ++ [x] with [] => true | _ :: _ => false end) = false) as -> by (destruct q; reflexivity).
+  assert (get (olinks (whole_file c0 m)) (rname m) = Some (enc m)) as -> by (unfold whole_file; cbn [olinks]; apply get_first).
+  rewrite (validate_names_enc m Hok (q ++ [x]) km [] Hwm). cbn [app].
+  unfold ow_and_branch, overwrite_at. rewrite Hdn.
+  destruct (init_last q x) as (Hinit & Hlast).
+  assert (last_name (rname m :: q ++ [x]) = x) as ->.
+  { unfold last_name. change (rname m :: q ++ [x]) with ((rname m :: q) ++ [x]). apply last_last. }
+  rewrite String.eqb_refl, path_eqb_refl. cbn [andb]. assert (exists y q0, q ++ [x] = y :: q0) as (y & q0 & Eq) by (destruct q; cbn; eauto). rewrite Eq at 1. rewrite Hinit.
+  (* first the replace in the parent, then the merge below the node: one transformation of the parent group *)
+  destruct (update_at_first_ok (rname m :: q) (whole_file c0 m) (overwrite_in_parent data) (in_child (rname data) (append_branch true data)) f' Hu) as (f1 & E1).
+  rewrite E1. cbn [bind]. change (rname m :: q ++ [x]) with ((rname m :: q) ++ [x]).
+  rewrite (update_at_compose (rname m :: q) (whole_file c0 m) (overwrite_in_parent data) f1 x (append_branch true data) E1).
+  rewrite <- Hdn. exact Hu.
+Qed.
